@@ -44,12 +44,12 @@ inline json fired;                        // parent: what the handler saw
     if (child_fd >= 0) {
         std::string s = j.dump();
         (void)!::write(child_fd, s.data(), s.size());
-        ::_exit(42);
+        vh_exit(42);
     }
     fired = j;
     if (armed) { siglongjmp(jb, 1); }
     std::fprintf(stderr, "assert handler fired outside a call: %s:%d\n", file, line);
-    ::_exit(3);
+    vh_exit(3);
 }
 } // namespace vhc
 namespace etl {
@@ -526,7 +526,7 @@ struct Runner {
             j["snap"]    = state();
             std::string s = j.dump();
             (void)!::write(fds[1], s.data(), s.size());
-            ::_exit(0);
+            vh_exit(0);
         }
         ::close(fds[1]);
         std::string buf;
